@@ -153,6 +153,22 @@ fn gen(rng: &mut Rng, ext: &str) -> DocD {
             d.layers[0].cells.push(CellD { x, y, ch, fg, bg, attr: 0, fp: 0 });
         }
     }
+    if rng.chance(1, 5) {
+        // the picture ends in a run of n equal cells, n a byte value with a meaning of its own at the end of a file or of a
+        // run-length record (line feed, form feed, carriage return, ^V, ^Y, the DOS EOF byte 0x1A, and their neighbours)
+        let n = *rng.pick(&[9i32, 10, 12, 13, 22, 25, 26, 26, 26, 27, 32]);
+        let n = n.min(w);
+        let y = h - 1;
+        d.layers[0].cells.retain(|c| c.y != y);
+        let lead = if rng.bool() { 0 } else { rng.usize((w - n) as usize + 1) as i32 };
+        let (ch, fg, bg) = (*rng.pick(&[0x23u32, 0x41, if ext == "ata" { 0x58 } else { 0xDB }, 0x2A]), if ext == "asc" || ext == "ata" { 7 } else { 1 + rng.below(15) as u32 }, if ext == "asc" || ext == "ata" { 0 } else { rng.below(8) as u32 });
+        for x in 0..lead {
+            d.layers[0].cells.push(CellD { x, y, ch: 0x61 + (x as u32 % 20), fg: 7, bg: 0, attr: 0, fp: 0 });
+        }
+        for x in lead..lead + n {
+            d.layers[0].cells.push(CellD { x, y, ch, fg, bg, attr: 0, fp: 0 });
+        }
+    }
     d
 }
 
@@ -204,7 +220,7 @@ impl Prop for C15 {
         "C15"
     }
     fn rule(&self) -> &'static str {
-        "single-layer buffers of width 80 (40 for ATASCII) and height 1..=40 whose last row is not empty, over printable CP437 (0x20..=0x7E, 0x80..=0xFE; ATASCII 0x20..=0x7C) minus each format's lead-in characters, with attribute sequences over fg 0..=15 x bg 0..=7 (keep / change fg / change bg / both), rows of every length 0..=width incl. full-width rows, all three screen preparations, are written with the real writer and parsed back with the real loader; every cell up to the end of its row is compared: character (NUL = blank), and for Avatar/PCBoard/Ctrl-A/Renegade the displayed foreground and background RGB, for ATASCII inverse video; a third of the ASCII documents carry colours as well (only their characters are compared). distinct_nontrivial = distinct (format, height, preparation, leading cells) documents"
+        "single-layer buffers of width 80 (40 for ATASCII) and height 1..=40 whose last row is not empty, over printable CP437 (0x20..=0x7E, 0x80..=0xFE; ATASCII 0x20..=0x7C) minus each format's lead-in characters, with attribute sequences over fg 0..=15 x bg 0..=7 (keep / change fg / change bg / both), rows of every length 0..=width incl. full-width rows, one picture in five ending in a run of 9/10/12/13/22/25/26/27/32 equal cells (byte values with a meaning of their own at the end of a file or of a run-length record), all three screen preparations, are written with the real writer and parsed back with the real loader; every cell up to the end of its row is compared: character (NUL = blank), and for Avatar/PCBoard/Ctrl-A/Renegade the displayed foreground and background RGB, for ATASCII inverse video; a third of the ASCII documents carry colours as well (only their characters are compared). distinct_nontrivial = distinct (format, height, preparation, leading cells) documents"
     }
     fn meta(&self, ctx: &Ctx) -> Value {
         json!({"floor_evaluations": 3000, "floor_distinct": ctx.tier.pick(2500u64, 30000u64),
